@@ -187,6 +187,8 @@ func mustDerive(v ssa.Value, classify func(ssa.Value) leafVerdict) (bool, ssa.Va
 				}
 			}
 			return true
+		case *ssa.BinOp:
+			return walk(x.X, d+1) && walk(x.Y, d+1)
 		case *ssa.ChangeType:
 			return walk(x.X, d+1)
 		case *ssa.Convert:
